@@ -103,7 +103,7 @@ class RenkoSim:
         self.nu, self.nl = self.lu * (1.0 + s), self.ll * (1.0 - s)
 
 
-def renko_oracle(size, cs_prices, vols):
+def renko_oracle(size, cs_prices, vols, v0=None):
     def f(io):
         if io[0] != 0:
             return None
@@ -113,6 +113,9 @@ def renko_oracle(size, cs_prices, vols):
         i = 1
         pending = 0.0
         last = None      # (direction, last brick open, last brick close)
+        if v0 is not None and v0 == v0 and abs(v0) != float('inf') and v0 > 0:
+            # before the first emission the 'last brick' is the one centred on the construction price (half a brick either side)
+            last = (1, v0 - v0 * size * 0.5, v0 + v0 * size * 0.5)
         for t, p in enumerate(cs_prices):
             ln, sign = io[i], io[i + 1]
             o, c, vol = bits2f(io[i + 2]), bits2f(io[i + 3]), bits2f(io[i + 4])
@@ -226,7 +229,7 @@ def run(ctx):
                 sim.feed(srcv)
         line = "candle renko %016x %d %s %d %s" % (f2bits(size), src, hex_candle(cs[0]), len(cs) - 1, " ".join(hex_candle(c) for c in cs[1:]))
         term = "renko_run %s (%d) %s [%s]" % (coq_float(size), src, cq_candle(cs[0]), "; ".join(cq_candle(c) for c in cs[1:]))
-        c = Simple(line, term, "renko", renko_oracle(size, prices[1:], [x[4] for x in cs[1:]]), exact=False,
+        c = Simple(line, term, "renko", renko_oracle(size, prices[1:], [x[4] for x in cs[1:]], prices[0]), exact=False,
                    extra={"entry": "Renko", "size": size, "source": src})
         c.zero_loose = True
         cases.append(c)
